@@ -209,7 +209,15 @@ MsPadJ(e) ==
                        /\ e.ost[s].at = w[s].at                           \* earlier streams do not move
                        /\ q.ok
                        /\ q.sizes = w[s].r.sizes /\ q.toc \div 4 = w[s].r.toc \div 4
-                       /\ (s < S => q = w[s].r)                            \* and are unchanged
+                       /\ (s < S => q = w[s].r)                            \* and are unchanged,
+                       /\ (s < S => /\ e.ost[s].pdn = e.st[s].pdn          \* padding bytes (extensions) included
+                                    /\ PadB(e.ost[s].pdz, e.ost[s].pd) = PadB(e.st[s].pdz, e.st[s].pd))
+                       /\ LET xi == E!ParseRaw(PadB(e.st[s].pdz, e.st[s].pd), w[s].r.count)
+                              xq == E!ParseRaw(PadB(e.ost[s].pdz, e.ost[s].pd), w[s].r.count) IN
+                          (xi.ok /\ (s < S \/ e.nn > e.n)) =>             \* every stream keeps its extensions
+                             /\ xq.ok
+                             /\ E!StableSortByFrame(E!XContentsOf(PadB(e.ost[s].pdz, e.ost[s].pd), xq.exts), w[s].r.count)
+                                  = E!StableSortByFrame(E!XContentsOf(PadB(e.st[s].pdz, e.st[s].pd), xi.exts), w[s].r.count)
                        /\ (s = S => q.consumed = e.nn - w[s].at)          \* the last one fills the new length
                        /\ OutTableOK(e.ost[s].fr, q, InFids(e.st[s].fr, w[s].r.count), 0)>>,
              <<"PadKeepsExtensions", (e.ret = 0 /\ e.nn > e.n /\ Len(e.ost) = S) =>
@@ -231,12 +239,108 @@ AudioJ(e) ==
              <<"SameFinalRange", e.rA = e.rB /\ e.rA = e.rC>>,
              <<"Canary", e.can = 1>> >>, NoFacts)
 
+
+-----------------------------------------------------------------------------
+(* Growth: opus_repacketizer_out_range_impl(rp, b, e, data, m, sd, pad, NULL, 0) called directly *)
+OutXJ(e) ==
+  LET n  == Len(rp.frames)
+      sd == e.sd = 1
+      pad == e.pad = 1 IN
+  IF ~RangeOK(rp, e.b, e.e)
+  THEN Res(rp, << <<"BadRangeRefused", e.ret < 0>>, <<"Canary", e.can = 1>>, <<"GetNbFrames", e.nb = n>> >>, NoFacts)
+  ELSE
+  LET b     == e.b
+      cnt   == e.e - b
+      sel   == Sel(rp, b, e.e)
+      car   == Carried(rp, b, e.e)
+      has   == car # <<>>
+      canon == Canon(rp.cfg, SizesOf(sel), sd)
+      upper == IF has THEN ExtUpper(rp.cfg, SizesOf(sel), sd, car) ELSE canon.len
+      lower == IF has THEN ExtLower(rp.cfg, SizesOf(sel), sd, car) ELSE canon.len
+      facts == <<B(has), B(SelBadExt(rp, b, e.e)), 0>> IN
+  IF e.ret < 0
+  THEN Res(rp, << <<"RefusedOnlyWhenMaxlenTooSmall", e.m < upper>>,
+                  <<"Canary", e.can = 1>>, <<"GetNbFrames", e.nb = n>> >>, facts)
+  ELSE
+  LET q  == Parse(Pk(e.h, e.ret), sd)
+      pd == PadB(e.pdz, e.pd)
+      x  == E!ParseRaw(pd, cnt)
+      xc == E!XContentsOf(pd, x.exts) IN
+  Res(rp, << <<"OutFits", e.ret >= 1 /\ e.ret <= e.m>>,
+             \* pad = 1: exactly maxlen; pad = 0: the canonical size, or within the generator's bounds
+             <<"ExactSize", IF pad THEN e.ret = e.m /\ e.m >= lower
+                            ELSE IF has THEN e.ret >= lower /\ e.ret <= upper ELSE e.ret = canon.len>>,
+             <<"CanonicalWhenNothingAdded", (~pad /\ ~has) => IsPrefixOf(canon.hdr, e.h)>>,
+             <<"OutReparses", /\ q.ok
+                              /\ q.consumed = e.ret                  \* self-delimited: the packet is all of the output
+                              /\ q.toc \div 4 = rp.cfg
+                              /\ q.sizes = SizesOf(sel)
+                              /\ OutTableOK(e.fr, q, FidsOf(sel), 0)
+                              /\ e.pdn = q.pad>>,
+             <<"OutExtensionsWellFormed", x.ok>>,
+             <<"ExtCarried", x.ok => /\ \A k \in 0..(cnt - 1) : Strip(E!ExtsOfFrame(xc, k)) = NaturalExts(rp, b, k)
+                                     /\ Len(xc) = Len(car)>>,
+             <<"PaddingIsZeroWhenNoExtensions", (~has /\ e.pdn > 0) => e.pdz = 1>>,
+             <<"Canary", e.can = 1>>,
+             <<"GetNbFrames", e.nb = n>> >>, facts)
+
+(* Growth: opus_packet_pad_impl(data, n, nn, pad, extensions): e.xl = <<id, frame, data>> rows *)
+XList(xl) == [i \in 1..Len(xl) |-> [id |-> xl[i][1], frame |-> xl[i][2], data |-> xl[i][3]]]
+PadXJ(e) ==
+  LET p   == Parse(Pk(e.h, e.n), FALSE)
+      pad == e.pad = 1 IN
+  IF e.n < 1 \/ e.nn < e.n THEN Res(rp, << <<"PadBadArgRefused", e.ret < 0>>, <<"Canary", e.can = 1>> >>, NoFacts)
+  ELSE IF ~p.ok THEN Res(rp, << <<"PadInvalidRefused", IF e.nn = e.n THEN e.ret <= 0 ELSE e.ret < 0>>,
+                                <<"Canary", e.can = 1>> >>, NoFacts)
+  ELSE IF e.nn = e.n THEN       \* documented shortcut: nothing to do, the packet is returned as it is
+       Res(rp, << <<"PadSucceeds", e.ret = 0>>, <<"Canary", e.can = 1>> >>, NoFacts)
+  ELSE
+  LET list  == XList(e.xl)
+      legal == E!GenArgsLegal(list, p.count)
+      pin   == PadB(e.pdz, e.pd)
+      xin   == E!ParseRaw(pin, p.count)
+      own   == IF xin.ok THEN E!XContentsOf(pin, xin.exts) ELSE <<>>
+      all   == own \o list
+      has   == all # <<>>
+      cfg   == p.toc \div 4
+      canon == Canon(cfg, p.sizes, FALSE)
+      upper == IF has THEN ExtUpper(cfg, p.sizes, FALSE, all) ELSE IF pad THEN Enc(cfg, p.sizes, FALSE, 0, TRUE).len ELSE canon.len
+      lower == IF has THEN ExtLower(cfg, p.sizes, FALSE, all) ELSE canon.len
+      facts == <<B(has), B(~xin.ok), 0>> IN
+  IF ~legal THEN Res(rp, << <<"HarnessConsistent", InTableOK(e.fr, p, 0) /\ e.pdn = p.pad>>,
+                            <<"IllegalExtensionRefused", e.ret < 0>>, <<"Canary", e.can = 1>> >>, facts)
+  ELSE IF e.ret <= 0
+  THEN Res(rp, << <<"HarnessConsistent", InTableOK(e.fr, p, 0) /\ e.pdn = p.pad>>,
+                  <<"RefusedOnlyWhenNewLenTooSmall", e.ret < 0 /\ e.nn < upper>>,
+                  <<"Canary", e.can = 1>> >>, facts)
+  ELSE
+  LET q  == Parse(Pk(e.oh, e.ret), FALSE)
+      po == PadB(e.opdz, e.opd)
+      xo == E!ParseRaw(po, p.count)
+      got == E!XContentsOf(po, xo.exts) IN
+  Res(rp, << <<"HarnessConsistent", InTableOK(e.fr, p, 0) /\ e.pdn = p.pad>>,
+             <<"OutFits", e.ret <= e.nn>>,
+             <<"ExactSize", IF pad THEN e.ret = e.nn /\ e.nn >= lower
+                            ELSE IF has THEN e.ret >= lower /\ e.ret <= upper ELSE e.ret = canon.len>>,
+             <<"PadSameFrames", /\ q.ok
+                                /\ q.toc \div 4 = cfg
+                                /\ q.sizes = p.sizes
+                                /\ OutTableOK(e.ofr, q, InFids(e.fr, p.count), 0)
+                                /\ e.opdn = q.pad>>,
+             <<"OutExtensionsWellFormed", xo.ok>>,
+             \* the packet's own extensions and the added ones, per frame, nothing else
+             <<"PadAddsExtensions", xo.ok => /\ Len(got) = Len(all)
+                                            /\ \A k \in 0..(p.count - 1) : FrameExtsOK(got, own, list, k)>>,
+             <<"Canary", e.can = 1>> >>, facts)
+
 -----------------------------------------------------------------------------
 J(e) ==
   CASE e.k = "new"     -> Res(EmptyRp, << <<"GetNbFrames", e.nb = 0>> >>, NoFacts)
     [] e.k = "init"    -> Res(EmptyRp, << <<"GetNbFrames", e.nb = 0>> >>, NoFacts)
     [] e.k = "cat"     -> CatJ(e)
     [] e.k = "out"     -> OutJ(e)
+    [] e.k = "outx"    -> OutXJ(e)
+    [] e.k = "padx"    -> PadXJ(e)
     [] e.k = "pad"     -> PadJ(e)
     [] e.k = "unpad"   -> UnpadJ(e)
     [] e.k = "mspad"   -> MsPadJ(e)
